@@ -14,6 +14,8 @@ def run(ctx, replay):
                        "real authority.Cache + resolver lease helpers under two virtual-clock mechanisms; distinct = "
                        "distinct action sequences; every recorded run validated by Trace_Lease with the property "
                        "invariants evaluated on the observed deadlines")
+    if replay and c08_api.run_replay(ctx, replay):
+        return
     c08_api.run_api(ctx)
     try:
         pipe = importlib.import_module("c08_pipeline")
